@@ -111,11 +111,28 @@ type Config struct {
 	// event (which can make the nested call deliver several events while the outer call is
 	// still walking its own batch).  Only M01 is meaningful for such configurations.
 	Reenter bool
+	// ReenterClose: the Stream calls Close from inside the first outermost callback that happens while other
+	// events are still undelivered (buffered or waiting in the batch being delivered).  M01 only.
+	ReenterClose bool
+	// Recycle: the caller takes delivered *AuditMessage structs back (a pool) and fills them in again for
+	// later pushes - after ReassemblyComplete has returned the structs are the caller's again.
+	Recycle bool
+	// ReenterTickMaintain: from inside the first outermost callback the Stream lets this many ticks pass (a slow
+	// sink) and then calls Maintain: events whose timeout elapses meanwhile are due at that nested call.
+	ReenterTickMaintain int
+	// HugeTimeout: 0 none, 1 = 250 years, 2 = the largest Duration ("never")
+	HugeTimeout int
 }
 
 const farTimeout = int64(1) << 40
 
 func (c Config) timeout() time.Duration {
+	switch c.HugeTimeout {
+	case 1:
+		return 250 * 365 * 24 * time.Hour
+	case 2:
+		return time.Duration(1<<63 - 1)
+	}
 	if c.TimeoutTicks == farTimeout {
 		return 1000 * time.Hour
 	}
@@ -136,6 +153,18 @@ func (c Config) String() string {
 	}
 	if c.TimeoutHalf {
 		to += ".5"
+	}
+	if c.HugeTimeout > 0 {
+		to = []string{"", "250y", "maxDuration"}[c.HugeTimeout]
+	}
+	if c.ReenterClose {
+		re += " stream-closes-from-callback"
+	}
+	if c.Recycle {
+		re += " recycled-message-structs"
+	}
+	if c.ReenterTickMaintain > 0 {
+		re += fmt.Sprintf(" slow-stream(%d ticks)-then-Maintain", c.ReenterTickMaintain)
 	}
 	return fmt.Sprintf("maxInFlight=%d timeout=%s base=%d offs=%v kinds=%v ticks=%v maxrecs=%d%s", c.MaxInFlight, to, c.Base, c.Offsets, c.Kinds, c.Ticks, c.MaxRecs, re)
 }
@@ -170,16 +199,18 @@ type Instance struct {
 	r     *libaudit.Reassembler
 	clock *vtime.Clock
 
-	pending   map[uint32]*shadowEvent
-	hw        uint32 // high-water ord
-	hasHW     bool
-	closed    int // number of Close calls that returned nil
-	closedAt  int // ops executed since first successful close
-	step      int
-	nextTag   int
-	rawBuf    []byte
-	reentered bool
-	nesting   int
+	pending                map[uint32]*shadowEvent
+	hw                     uint32 // high-water ord
+	hasHW                  bool
+	closed                 int // number of Close calls that returned nil
+	closedAt               int // ops executed since first successful close
+	step                   int
+	nextTag                int
+	rawBuf                 []byte
+	closeFromCB, cbChecked bool
+	free                   []*auparse.AuditMessage // Recycle: delivered structs the caller may fill in again
+	reentered              bool
+	nesting                int
 
 	// per-call observation
 	inCall       bool
@@ -307,6 +338,37 @@ func (in *Instance) ReassemblyComplete(msgs []*auparse.AuditMessage) {
 	}
 	delete(in.pending, s)
 
+	if in.cfg.Recycle {
+		for _, m := range msgs {
+			in.free = append(in.free, m)
+		}
+	}
+	if in.cfg.ReenterTickMaintain > 0 && in.nesting == 0 && in.closed == 0 && !in.callIsClose && !in.reentered {
+		in.reentered = true
+		in.clock.Advance(time.Duration(in.cfg.ReenterTickMaintain) * tick)
+		in.nesting++
+		if err := in.r.Maintain(); err != nil {
+			in.fail("M19", "maintain-error", "Maintain called from inside a callback on an open Reassembler returned %v", err)
+		}
+		in.nesting--
+	}
+	if in.cfg.ReenterClose && in.nesting == 0 && in.closed == 0 && !in.callIsClose && !in.reentered && len(in.pending) > 0 {
+		in.reentered = true
+		in.nesting++
+		cbBefore := in.callbacks
+		wasClose := in.callIsClose
+		in.callIsClose = true
+		err := in.r.Close()
+		in.callIsClose = wasClose
+		in.nesting--
+		if err != nil {
+			in.fail("M19", "close-error", "Close called from inside a callback returned %v", err)
+		} else {
+			in.closed++
+			in.closeFromCB = true
+		}
+		_ = cbBefore
+	}
 	if in.cfg.Reenter && in.nesting == 0 && in.closed == 0 && !in.callIsClose {
 		// every outermost callback re-enters (a deterministic function of the state)
 		// the oldest INCOMPLETE undelivered event (complete ones may already sit in the batch the
@@ -380,6 +442,19 @@ func (in *Instance) beginCall(isClose bool) {
 
 func (in *Instance) endCall(op Op) {
 	in.inCall = false
+	if in.closeFromCB && !in.cbChecked && in.nesting == 0 {
+		// the Stream closed the Reassembler from inside a callback of this call: when the call has returned,
+		// everything pushed so far has been delivered (Close flushed the buffer, the call finished its batch)
+		in.cbChecked = true
+		if len(in.pending) != 0 {
+			var seqs []string
+			for s, p := range in.pending {
+				seqs = append(seqs, fmt.Sprintf("%d(%d recs)", s, len(p.msgs)))
+			}
+			sort.Strings(seqs)
+			in.fail("M01", "not-delivered-after-close-from-callback", "Close was called from inside a callback of %v; after that call returned these pushed records were never delivered: %v", op, seqs)
+		}
+	}
 	// M03: per-call accounting
 	var sum int64
 	for _, c := range in.callLost {
@@ -486,7 +561,14 @@ func (in *Instance) Apply(op Op) {
 				in.fail("M01", "push-error", "Push(%d, %q) returned %v", k.Type, raw, err)
 			}
 		} else {
-			rec.ptr = &auparse.AuditMessage{RecordType: auparse.AuditMessageType(k.Type), Sequence: op.Seq, RawData: op.Raw}
+			if in.cfg.Recycle && len(in.free) > 0 {
+				// the struct of an already delivered message, filled in again
+				rec.ptr = in.free[len(in.free)-1]
+				in.free = in.free[:len(in.free)-1]
+				*rec.ptr = auparse.AuditMessage{RecordType: auparse.AuditMessageType(k.Type), Sequence: op.Seq, RawData: op.Raw}
+			} else {
+				rec.ptr = &auparse.AuditMessage{RecordType: auparse.AuditMessageType(k.Type), Sequence: op.Seq, RawData: op.Raw}
+			}
 			if k.TS != 0 {
 				rec.ptr.Timestamp = in.stamp(k)
 			}
